@@ -29,6 +29,7 @@ type Schedule struct {
 	Heal   bool    `json:"heal"`   // ... in which the network heals (else it stays dead)
 	Random int     `json:"random"` // draw this many further steps at random (seeded) among the enabled ones
 	Seed   int64   `json:"seed"`
+	After  []Step  `json:"after"` // steps after the random ones (the closure)
 }
 
 // RunSchedule executes a schedule on a fresh world and records its trace.
@@ -58,6 +59,9 @@ func RunSchedule(w *World, s *Schedule) {
 			w.RunStep(&st)
 		}
 	}
+	for i := range s.After {
+		w.RunStep(&s.After[i])
+	}
 	w.line("end", Ev{"steps": w.stepNo, "closed": s.Closed, "heal": s.Heal})
 }
 
@@ -69,18 +73,16 @@ func (w *World) deliver(dir string, pop bool) string {
 	}
 	to := dir[1:]
 	nt := w.Net
+	nd := w.Slot[to].node
+	if nd.dead() { // the message is lost
+		w.Emit("recv", Ev{"n": to, "k": m.Kind, "dup": false, "lk": w.leaks(m.Payload), "sid": m.Label, "res": "down", "pre": "", "to": "", "sent": []string{}})
+		return "down"
+	}
 	nt.mu.Lock()
-	dup := nt.seen[to][m.Digest]
+	dup := nt.seen[to][m.Digest] // the identical payload was handled before by a live process of the receiver
 	nt.seen[to][m.Digest] = true
 	nt.mu.Unlock()
 	ev := Ev{"n": to, "k": m.Kind, "dup": dup, "lk": w.leaks(m.Payload), "sid": m.Label}
-	nd := w.Slot[to].node
-	if nd.dead() {
-		ev["res"] = "down"
-		ev["pre"], ev["to"] = "", ""
-		w.Emit("recv", ev)
-		return "down"
-	}
 	pre := ""
 	if v, ok := nd.svc.VerifSnapshot()[w.idOf(m.Label)]; ok {
 		pre = v.Current
